@@ -1,38 +1,220 @@
+// Command queries is the correspondence family of property C17: list queries return exactly the
+// matching state and paging neither drops nor repeats.
+//
+//	queries -seed <uint64> -tier quick|thorough -out <dir> [-states n] [-one id] [-workers n]
+//
+// For every scenario (a short randomized history of real transactions on a mini chain, see package
+// verif/harness/queries) it runs every covered gRPC query of the three ecocredit query services with
+// present and absent filter arguments under many pagination scenarios, checks the answers with
+// brute-force monitors over the State snapshot, and emits the observations as Coq cases for
+// Regen.Cases.QueryRun (cases_NNN.v), cases.json and summary.json.
 package main
 
 import (
+	"flag"
 	"fmt"
-	"errors"
+	"os"
+	"path/filepath"
+	"runtime"
+	"runtime/debug"
+	"sort"
+	"sync"
 
-	"verif/harness/chain"
-	base "github.com/regen-network/regen-ledger/x/ecocredit/v3/base/types/v1"
-	basket "github.com/regen-network/regen-ledger/x/ecocredit/v3/basket/types/v1"
-	regenerrors "github.com/regen-network/regen-ledger/types/v2/errors"
-	"google.golang.org/grpc/status"
-	"github.com/cosmos/cosmos-sdk/types/query"
+	"verif/harness/internal/common"
+	"verif/harness/queries"
 )
 
+func fatal(format string, args ...interface{}) {
+	fmt.Fprintf(os.Stderr, "queries: "+format+"\n", args...)
+	os.Exit(2)
+}
+
+type job struct {
+	id   uint64
+	seed uint64
+	big  bool
+	res  *queries.CaseResult
+	err  string
+}
+
 func main() {
-	a := chain.New(chain.Options{})
-	r := a.InitChain()
-	fmt.Println(r.OK)
-	g := a.GenesisJSON()
-	fmt.Println(string(g["ecocredit"]))
-	var res base.QueryClassResponse
-	err := a.Query("/regen.ecocredit.v1.Query/Class", &base.QueryClassRequest{ClassId: "C99"}, &res)
-	fmt.Printf("%T %v | is=%v code=%v\n", err, err, errors.Is(err, regenerrors.ErrNotFound), status.Code(err))
-	var sres base.QuerySupplyResponse
-	err = a.Query("/regen.ecocredit.v1.Query/Supply", &base.QuerySupplyRequest{BatchDenom: "C99"}, &sres)
-	fmt.Printf("%T %v | is=%v code=%v\n", err, err, errors.Is(err, regenerrors.ErrInvalidArgument), status.Code(err))
-	var bres basket.QueryBasketResponse
-	err = a.Query("/regen.ecocredit.basket.v1.Query/Basket", &basket.QueryBasketRequest{BasketDenom: "C99"}, &bres)
-	fmt.Printf("%T %v | code=%v\n", err, err, status.Code(err))
-	var cres base.QueryClassesResponse
-	err = a.Query("/regen.ecocredit.v1.Query/Classes", &base.QueryClassesRequest{Pagination: &query.PageRequest{Key: []byte{1}, Offset: 2}}, &cres)
-	fmt.Printf("%T %v | code=%v\n", err, err, status.Code(err))
-	err = a.Query("/regen.ecocredit.v1.Query/Classes", &base.QueryClassesRequest{Pagination: &query.PageRequest{Offset: 2}}, &cres)
-	fmt.Printf("%T %v | code=%v\n", err, err, status.Code(err))
-	var ares base.QueryClassesByAdminResponse
-	err = a.Query("/regen.ecocredit.v1.Query/ClassesByAdmin", &base.QueryClassesByAdminRequest{Admin:"foo"}, &ares)
-	fmt.Printf("%T %v | code=%v\n", err, err, status.Code(err))
+	seed := flag.Uint64("seed", 1, "master seed")
+	tier := flag.String("tier", "quick", "quick | thorough")
+	out := flag.String("out", "", "output directory")
+	states := flag.Int("states", 0, "number of scenarios (default: 60 quick, 1200 thorough)")
+	one := flag.Int("one", -1, "run only the scenario with this case id")
+	workers := flag.Int("workers", runtime.NumCPU(), "parallel workers (does not influence the output)")
+	perShard := flag.Int("per-shard", 3, "cases per Coq shard")
+	flag.Parse()
+	if *out == "" {
+		fatal("-out is required")
+	}
+	n := 60
+	switch *tier {
+	case "quick":
+	case "thorough":
+		n = 1200
+	default:
+		fatal("unknown tier %q", *tier)
+	}
+	if *states > 0 {
+		n = *states
+	}
+	if err := os.MkdirAll(*out, 0o755); err != nil {
+		fatal("%v", err)
+	}
+
+	// plan: a fixed corpus of scenario seeds first (regressions), then the seeded stream
+	master := common.NewRng(*seed)
+	var jobs []*job
+	corpus := []struct {
+		seed uint64
+		big  bool
+	}{{1, true}, {2, false}, {3, false}}
+	for i := 0; i < n; i++ {
+		j := &job{id: uint64(i)}
+		if i < len(corpus) {
+			j.seed, j.big = corpus[i].seed, corpus[i].big
+			master.Uint64()
+		} else {
+			j.seed = master.Uint64()
+			j.big = j.seed%10 == 0
+		}
+		if *one >= 0 && i != *one {
+			continue
+		}
+		jobs = append(jobs, j)
+	}
+
+	ch := make(chan *job)
+	var wg sync.WaitGroup
+	w := *workers
+	if w < 1 {
+		w = 1
+	}
+	for i := 0; i < w; i++ {
+		wg.Add(1)
+		go func() {
+			defer wg.Done()
+			for j := range ch {
+				func() {
+					defer func() {
+						if r := recover(); r != nil {
+							j.err = fmt.Sprintf("scenario %d (seed %d) crashed the harness: %v\n%s", j.id, j.seed, r, debug.Stack())
+						}
+					}()
+					j.res = queries.RunScenario(j.id, j.seed, j.big, 150)
+				}()
+			}
+		}()
+	}
+	for _, j := range jobs {
+		ch <- j
+	}
+	close(ch)
+	wg.Wait()
+
+	sw := &common.ShardWriter{Dir: *out, RunMod: "Regen.Ledger.Types Regen.Query.Queries Regen.Cases.LedgerRun Regen.Cases.QueryRun", CaseType: "qcase", PerShard: *perShard,
+		Preamble: "Require Import Regen.Base.Calendar Regen.Dec.Dec.\nOpen Scope Z_scope.\n"}
+	cases := map[string]interface{}{}
+	hist := map[string]int{}
+	var violations []common.MonitorViolation
+	var samples []interface{}
+	evals, nontrivial := 0, 0
+	orderDiffs, pastEnd, pastPanics := 0, 0, 0
+	var unexpected []string
+	for _, j := range jobs {
+		if j.err != "" {
+			fatal("%s", j.err)
+		}
+		res := j.res
+		if err := sw.Add(res.Coq); err != nil {
+			fatal("%v", err)
+		}
+		cases[fmt.Sprint(j.id)] = res.JSON
+		if len(samples) < 3 {
+			js := map[string]interface{}{}
+			for k, v := range res.JSON {
+				if k != "items" {
+					js[k] = v
+				}
+			}
+			if items, ok := res.JSON["items"].([]interface{}); ok && len(items) > 3 {
+				js["items_sample"] = items[:3]
+			}
+			samples = append(samples, js)
+		}
+		hist["scenario:"+fmt.Sprint(res.JSON["scenario_kind"])]++
+		for _, rec := range res.Records {
+			evals++
+			hist["query:"+rec.Item.Query]++
+			hist["page:"+rec.Spec.Kind]++
+			switch {
+			case rec.ErrClass != 0:
+				hist[fmt.Sprintf("result:error-%d", rec.ErrClass)]++
+			default:
+				hist["result:ok"]++
+			}
+			if rec.Item.Present {
+				hist["arg:present"]++
+			} else {
+				hist["arg:absent"]++
+			}
+			nrows := len(rec.Want)
+			switch {
+			case rec.WantErr != 0:
+			case nrows == 0:
+				hist["rows:0"]++
+			case nrows == 1:
+				hist["rows:1"]++
+			case nrows <= 5:
+				hist["rows:2-5"]++
+			case nrows <= 20:
+				hist["rows:6-20"]++
+			case nrows <= 100:
+				hist["rows:21-100"]++
+			default:
+				hist["rows:>100"]++
+			}
+			if rec.Item.List && nrows >= 2 && rec.ErrClass == 0 {
+				nontrivial++
+			}
+		}
+		violations = append(violations, res.Violations...)
+		orderDiffs += res.OrderDiffs
+		pastEnd += res.PastEnd
+		pastPanics += res.PastPanics
+		unexpected = append(unexpected, res.Unexpected...)
+	}
+	if err := sw.Flush(); err != nil {
+		fatal("%v", err)
+	}
+	if err := common.WriteJSON(filepath.Join(*out, "cases.json"), cases); err != nil {
+		fatal("%v", err)
+	}
+	sort.Strings(unexpected)
+	if len(unexpected) > 20 {
+		unexpected = unexpected[:20]
+	}
+	if violations == nil {
+		violations = []common.MonitorViolation{}
+	}
+	sum := common.Summary{
+		Family: "queries", Seed: *seed, Tier: *tier, Evaluations: evals, DistinctNontrivial: nontrivial,
+		Rule: "every answer of the real gRPC query services (rows in order, next_key presence, total, PageResponse presence, single entity, error class) " +
+			"equals the model Query/Queries.v + Query/Paginate.v on the snapshot state; monitors: result set == brute-force filter of the table scan, " +
+			"no duplicate / missing row across pages, total correct, single entity == stored row",
+		Histogram: hist, Samples: samples, Shards: sw.Shards, MonitorViolations: violations,
+		Extra: map[string]interface{}{
+			"scenarios":                     len(jobs),
+			"offset_past_end_requests":      pastEnd,
+			"offset_past_end_panics":        pastPanics,
+			"order_differs_from_index_order": orderDiffs,
+			"errors_on_empty_result":        unexpected,
+		},
+	}
+	if err := common.WriteJSON(filepath.Join(*out, "summary.json"), sum); err != nil {
+		fatal("%v", err)
+	}
+	fmt.Printf("queries: %d scenarios, %d requests, %d shards, %d monitor violations\n", len(jobs), evals, len(sw.Shards), len(violations))
 }
